@@ -213,6 +213,7 @@ func (node *FamilyNode) SetWifePointer(pointer string) *FamilyNode {
 	value := fmt.Sprintf("@%s@", pointer)
 	if wife != nil {
 		wife.value = value
+		node.membersChanged()
 	}
 
 	node.AddNode(newNode(nil, node, TagWife, value, ""))
@@ -226,6 +227,7 @@ func (node *FamilyNode) SetHusbandPointer(pointer string) *FamilyNode {
 	value := fmt.Sprintf("@%s@", pointer)
 	if husband != nil {
 		husband.value = value
+		node.membersChanged()
 	}
 
 	husbandNode := newNode(nil, node, TagHusband, value, "")
@@ -240,6 +242,34 @@ func (node *FamilyNode) resetCache() {
 	node.cachedWife = false
 	node.husband = nil
 	node.wife = nil
+}
+
+// AddNode, DeleteNode and SetNodes change who belongs to the family. The
+// husband and wife remembered by the family, and the families and spouses
+// remembered by the individuals of the document have to be looked up again.
+func (node *FamilyNode) AddNode(n Node) {
+	node.simpleDocumentNode.AddNode(n)
+	node.membersChanged()
+}
+
+func (node *FamilyNode) DeleteNode(n Node) (didDelete bool) {
+	didDelete = node.simpleDocumentNode.DeleteNode(n)
+	node.membersChanged()
+
+	return
+}
+
+func (node *FamilyNode) SetNodes(nodes Nodes) {
+	node.simpleDocumentNode.SetNodes(nodes)
+	node.membersChanged()
+}
+
+func (node *FamilyNode) membersChanged() {
+	node.resetCache()
+
+	if node.document != nil {
+		node.document.familyEdits++
+	}
 }
 
 func (node *FamilyNode) childrenBornBeforeParentsWarnings() (warnings Warnings) {
